@@ -7,6 +7,7 @@ import (
 	"errors"
 	"strconv"
 	"sync"
+	"time"
 
 	"github.com/ThreeDotsLabs/watermill"
 	"github.com/ThreeDotsLabs/watermill/message"
@@ -61,8 +62,12 @@ func (p *c18Pub) Publish(topic string, msgs ...*message.Message) error {
 }
 func (p *c18Pub) Close() error { return nil }
 
+var c18Timeout *time.Duration // ListenForReplyTimeout of the next backend built
+var c18FinishedAt time.Time
+
 func c18Backend(sub *notifSubscriber, pub message.Publisher, finished *int, ackErrors bool) *PubSubBackend[c18Result] {
 	b, err := NewPubSubBackend[c18Result](PubSubBackendConfig{
+		ListenForReplyTimeout:  c18Timeout,
 		Publisher:              pub,
 		SubscriberConstructor:  func(PubSubBackendSubscribeParams) (message.Subscriber, error) { return sub, nil },
 		GeneratePublishTopic:   func(PubSubBackendPublishParams) (string, error) { return "replies", nil },
@@ -71,6 +76,7 @@ func c18Backend(sub *notifSubscriber, pub message.Publisher, finished *int, ackE
 		AckCommandErrors:       ackErrors,
 		OnListenForReplyFinished: func(context.Context, PubSubBackendSubscribeParams) {
 			*finished++
+			c18FinishedAt = time.Now()
 		},
 	}, BackendPubsubJSONMarshaler[c18Result]{})
 	vrt.Assert(err == nil, "backend created")
@@ -97,8 +103,16 @@ func c18Notification(opID string, n int, failed bool) *message.Message {
 func HarnessC18Listen() {
 	finished := 0
 	sub := &notifSubscriber{}
+	timeout := 100 * time.Millisecond
+	withTimeout := vrt.Bool("ListenForReplyTimeout.set")
+	c18Timeout = nil
+	if withTimeout {
+		c18Timeout = &timeout
+	}
 	b := c18Backend(sub, &c18Pub{}, &finished, false)
-	ctx, cancel := context.WithCancel(context.Background())
+	c18Timeout = nil
+	ctx, cancel := context.WithCancel(context.Background()) // callers 4 and 5 never cancel
+	t0 := time.Now()
 	replies, err := b.ListenForNotifications(ctx, BackendListenForNotificationsParams{OperationID: "mine"})
 	vrt.Assert(err == nil, "listening")
 	nNotif := vrt.Int("notifications", 0, vrt.Bound("maxnotifications", 2))
@@ -115,11 +129,17 @@ func HarnessC18Listen() {
 	go func() {
 		vrt.MayBlock()
 		for _, n := range notes {
+			if vrt.Timed() {
+				time.Sleep(60 * time.Millisecond) // replies keep arriving more often than the timeout
+			}
 			sub.chs[0] <- n
 			<-n.Acked() // a Pub/Sub delivers the next notification after the previous was settled
 		}
 	}()
-	caller := vrt.Int("caller", 0, 3) // 0 drains until closed, 1 reads one then cancels, 2 never reads, 3 cancels at once
+	// 0 drains until closed, 1 reads one then cancels, 2 cancels and never reads, 3 cancels at once and drains,
+	// 4 neither reads nor cancels, 5 drains and never cancels (4 and 5 rely on the timeout)
+	caller := vrt.Int("caller", 0, 5)
+	vrt.Assume(caller < 4 || withTimeout)
 	vrt.Assume(caller != 1 || (nNotif >= 1 && mine[0])) // "reads one" needs a reply to read
 	vrt.Tag("caller", caller)
 	got := 0
@@ -150,9 +170,17 @@ func HarnessC18Listen() {
 		for r := range replies {
 			check(r)
 		}
+	case 4:
+	case 5:
+		for r := range replies {
+			check(r)
+		}
 	}
 	vrt.AtQuiescence(func() {
-		vrt.Assert(vrt.Live("requestreply.PubSubBackend") == 0, "the listener goroutine terminates after the caller cancelled")
+		if vrt.Timed() && caller >= 4 {
+			vrt.Assert(c18FinishedAt.Sub(t0) <= timeout, "the listener ends when the timeout passes, however often replies arrive meanwhile")
+		}
+		vrt.Assert(vrt.Live("requestreply.PubSubBackend") == 0, "the listener goroutine terminates after the caller cancelled or the timeout passed")
 		vrt.Assert(finished == 1, "OnListenForReplyFinished runs exactly once")
 		vrt.Assert(vrt.IsClosed(replies) || vrt.ChanLen(replies) > 0, "the reply channel is closed")
 	})
